@@ -74,7 +74,9 @@ class AfterStart:
 
 
 class LifeRun:
-    def __init__(self, front, nroutes):
+    runs = 0
+
+    def __init__(self, front, nroutes, dup=None):
         self.front = front
         self.nroutes = nroutes
         self.sess = Session()
@@ -91,6 +93,19 @@ class LifeRun:
                 self.app.route('/' + ROUTE % i)(lambda name, app_param, reply, context: None)
             else:
                 self.app.route('/' + ROUTE % i)(lambda name, param, app_param: None)
+        self.problems = []
+        # a second declaration for a prefix that is already taken is refused (appv2: ValueError at declaration time) and is
+        # therefore not a declared route: the prefix is still registered once per connection. Every second run tries one.
+        LifeRun.runs += 1
+        if dup is None:
+            dup = ((LifeRun.runs // 2) % nroutes + 1) if (front == 'v2' and nroutes >= 1 and LifeRun.runs % 2 == 0) else 0
+        self.dup = dup          # route index declared a second time (0: none); kept in replay objects
+        if dup:
+            try:
+                self.app.route('/' + ROUTE % dup)(lambda name, app_param, reply, context: None)
+                self.problems.append('a second route() for an occupied prefix was accepted')
+            except ValueError:
+                pass
         self.main = None
         self.conn = 0
         self.after = None
@@ -98,7 +113,6 @@ class LifeRun:
         self.seen = 0
         self.user = []          # user express tasks
         self.nuser = 0
-        self.problems = []
 
     def close(self):
         try:
